@@ -555,6 +555,18 @@ func runC02(c *engine.Ctx) {
 			c.Bounds[name3] = map[string]interface{}{"buckets": u3.buckets, "keys": u3.keys, "bodies": u3.bodies, "ops": len(ops3), "max_depth": 5}
 		}
 	}
+	if quick(c) {
+		// the single-bucket backend on a real directory has clean-up code of its own
+		// (errors of a real file system: ENOTDIR, ENAMETOOLONG): the nested universe there too
+		cfg := drv.Config{Kind: drv.SingleDir}
+		un := &c02Universe{buckets: []string{"aaa"}, keys: []string{"d/s/z", "d/y", "d/s/t/w", "d/s"}, bodies: []string{"A"},
+			opKinds: map[string]bool{"put": true, "delete": true, "multi": true, "copy": true}}
+		opsn := c02BuildOps(un)
+		namen := "C02/" + worldName(cfg) + "/nested"
+		engine.RunSeq(c, engine.SeqSpec{Name: namen, World: worldName(cfg), MaxDepth: 4,
+			New: func() (engine.Sys, error) { return newC02Sys(cfg, un, opsn) }})
+		c.Bounds[namen] = map[string]interface{}{"buckets": un.buckets, "keys": un.keys, "bodies": un.bodies, "ops": len(opsn), "max_depth": 4}
+	}
 }
 
 func init() { Registry["C02"] = runC02 }
